@@ -122,6 +122,17 @@ def _te_inv(e):
     return {"tables-well-formed": wf_te(e.stream.encoder)}
 
 
+def _ns_each(e):
+    """C14: every binding is written out at once - its declaration row is in the flow, behind the lookup entries it needs,
+    before the next binding touches the tables (collecting entries and declarations separately lets a later binding evict
+    what an earlier declaration still refers to)"""
+    items = list(e.stream.flow.data.items)
+    if not items or isinstance(items[-1], Seg):
+        return {"declaration-row-of-this-binding-is-in-the-flow": False}
+    row = items[-1]
+    return {"declaration-row-of-this-binding-is-in-the-flow": And(which_is(row, "namespace"), row.namespace.name == e.prefix)}
+
+
 @contract(f"{GSER}:namespace_declarations", serves=["C14"])
 class _ns_decls:
     """every binding of the sink goes through Stream.namespace_declaration with the IRI *string* of the namespace
@@ -130,6 +141,7 @@ class _ns_decls:
     variants = [{"store": OBJ(SINK)}, {"store": OBJ(f"{SINK}@quads")}]
     modifies = ["stream.encoder.names", "stream.encoder.prefixes", "stream.flow.data", "stream.g_ns"]
     loops = {0: LoopSpec(invariant=lambda e: {"tables-well-formed": wf_te(e.stream.encoder)},
+                         after_each=lambda e: _ns_each(e),
                          modifies=["stream.encoder.names", "stream.encoder.prefixes", "stream.g_ns"],
                          extends=["stream.flow.data"])}
 
